@@ -52,7 +52,8 @@ class Tracker:
             for tid, r in e["results"]:
                 self.n_results += 1
                 for name, v in r.items():
-                    if isinstance(v, (int, float)) and not isinstance(v, bool):
+                    # "stop once an evaluation reports a metric value below / above a threshold": a NaN is neither
+                    if isinstance(v, (int, float)) and not isinstance(v, bool) and v == v:
                         self.metric_min[name] = v if name not in self.metric_min else min(self.metric_min[name], v)
                         self.metric_max[name] = v if name not in self.metric_max else max(self.metric_max[name], v)
         elif k == "sched.result":
@@ -275,7 +276,11 @@ def case_scripted(t):
     fail = t.chance(1, 3)
     if spec.family in ("sync-hb", "dehb"):
         fail = False  # synchronous brackets resume failed trials / DEHB cannot digest failures: known findings of C13 / C05
-    script_fn = make_script_fn(t, max_t_fn, t.bool(), fail_rate=4 if fail else 0)
+    # diverged runs report NaN (only with schedulers that do not rank the metric)
+    nan_rate = 4 if spec.family in ("fifo-random", "fifo-grid") and t.chance(1, 3) else 0
+    if nan_rate:
+        labels.add("nan-metric-values")
+    script_fn = make_script_fn(t, max_t_fn, t.bool(), fail_rate=4 if fail else 0, nan_rate=nan_rate)
     crit, fields = driver_sim.gen_stop_criterion(t)
     add_metric_thresholds(t, fields)
     crit = StoppingCriterion(**fields)
